@@ -908,3 +908,60 @@ Proof.
   rewrite !denote_blocks_content. unfold bcontent, content. rewrite !flat_map_app, fold_left_app.
   apply fold_keeps.
 Qed.
+
+(* ------------------------------------------------------------------------------------------------ *)
+(* 9. key lists are duplicate-free under PkUnion, so "equal as sets" is "equal up to order"          *)
+Definition pk_inv (s : state) : Prop := forall k l, snd s !! k = Some l -> NoDup l.
+
+Lemma pk_union_nodup new : forall old, NoDup old -> NoDup (pk_union old new).
+Proof.
+  induction new as [|x new IH]; intros old H; [exact H|].
+  unfold pk_union in *. cbn. apply IH. unfold pk_add. destruct (in_names x old) eqn:E; [exact H|].
+  apply NoDup_app. split; [exact H|]. split; [|apply NoDup_singleton].
+  intros y Hy Hx. apply elem_of_list_singleton in Hx. subst y.
+  apply elem_of_list_In, in_names_In in Hy. congruence.
+Qed.
+
+Lemma xstep_pk_inv s x : pk_inv s -> pk_inv (xstep PkUnion s x).
+Proof.
+  destruct s as [m p]. intros Hinv.
+  assert (Hd : forall k, NoDup (default [] (p !! k))).
+  { intros k. destruct (p !! k) eqn:E; [exact (Hinv k _ E)|apply NoDup_nil_2]. }
+  unfold xstep, apply_op.
+  destruct x as [| an table n a fs | an n a items | | |? [[? ?] ?]|]; cbn [x_app x_op fst snd]; try exact Hinv.
+  - intros k l; cbn [snd]. destruct (decide (k = (an, n))) as [->|Hne].
+    + rewrite lookup_partial_alter. unfold type_g.
+      destruct (default (TRec table ∅ ∅) (a_types (cur_app m an) !! n)) as [rel a0 fs0|a0 its]; cbn [snd]; [|apply Hinv].
+      destruct rel; [|apply Hinv].
+      unfold pk_update. destruct (pk_union (default [] (p !! (an, n))) _) eqn:E; [apply Hinv|].
+      intros [= <-]. rewrite <- E. apply pk_union_nodup, Hd.
+    + rewrite lookup_partial_alter_ne by congruence. apply Hinv.
+  - intros k l; cbn [snd]. destruct (decide (k = (an, n))) as [->|Hne].
+    + rewrite lookup_partial_alter. destruct items; cbn [snd]; [apply Hinv|discriminate].
+    + rewrite lookup_partial_alter_ne by congruence. apply Hinv.
+Qed.
+
+Lemma fold_pk_inv l : forall s, pk_inv s -> pk_inv (fold_left (xstep PkUnion) l s).
+Proof. induction l as [|x l IH]; intros s H; cbn [fold_left]; [exact H|]. apply IH, xstep_pk_inv, H. Qed.
+
+Lemma denote_blocks_pk_inv bs : pk_inv (denote_blocks PkUnion bs).
+Proof. rewrite denote_blocks_content. apply fold_pk_inv. intros k l H. cbn [snd] in H. rewrite lookup_empty in H. discriminate. Qed.
+
+Definition key_of (s : state) (k : appname * name) : list name := default [] (snd s !! k).
+
+Theorem merge_partition_invariant_perm files root joined :
+  NoDup (map fst files) -> all_reached files root = true ->
+  wf (bcontent joined) -> refines (bcontent joined) (bcontent (all_blocks files)) ->
+  fst (denote_files PkUnion files root) = fst (denote_blocks PkUnion joined) /\
+  forall k, Permutation (key_of (denote_files PkUnion files root) k) (key_of (denote_blocks PkUnion joined) k).
+Proof.
+  intros Hnd Hall Hwf Href.
+  destruct (merge_partition_invariant files root joined Hnd Hall Hwf Href) as [H1 H2].
+  split; [exact H1|]. intros k. unfold key_of.
+  assert (Hn : forall s, pk_inv s -> NoDup (default [] (snd s !! k))).
+  { intros s Hs. destruct (snd s !! k) eqn:E; [exact (Hs k _ E)|apply NoDup_nil_2]. }
+  apply NoDup_Permutation.
+  - apply Hn. unfold denote_files. apply denote_blocks_pk_inv.
+  - apply Hn, denote_blocks_pk_inv.
+  - intros x. rewrite !elem_of_list_In. apply H2.
+Qed.
